@@ -138,9 +138,8 @@ def utf8_edge_strings():
     return sorted(seen)
 
 
-def structured_strings(ctx):
+def structured_strings(ctx, k=2):
     """every prefix and suffix-truncation of concatenations of 1..k tokens: escapes at end-1, end-2, %u with 3 digits ..."""
-    k = 3 if ctx.thorough() else 2
     seen = set()
     for n in range(1, k + 1):
         for t in itertools.product(TOKENS, repeat=n):
@@ -175,28 +174,44 @@ def gen_path(ctx):
     """yields batches of S-path cases (bounded memory in the thorough tier)"""
     core, extra = covering_cfgs(ctx)
     cfgs = core + extra
-    L = 5 if ctx.thorough() else 4
-    hexes = [vf.hexs(s) for s in vf.strings_upto(ALPHA, L)]
-    hexes1 = [vf.hexs(s) for s in vf.strings_upto(ALPHA, L - 1)]
+    pc = personality_cfgs()
+    bases = []
+    for d in pc:
+        k = cfg_fields(d)
+        if k not in bases:
+            bases.append(k)
+    hexes4 = [vf.hexs(s) for s in vf.strings_upto(ALPHA, 4)]
+    hexes3 = [vf.hexs(s) for s in vf.strings_upto(ALPHA, 3)]
     cases = [RAWNUL_CASE]
     for c in core:
         pre = "path\t" + c + "\t"
-        cases += [pre + h for h in hexes]
+        cases += [pre + h for h in hexes4]
         if len(cases) > 4000000:
             yield cases
             cases = []
     for c in extra:
         pre = "path\t" + c + "\t"
-        cases += [pre + h for h in hexes1]
+        cases += [pre + h for h in (hexes4 if ctx.thorough() else hexes3)]
+        if len(cases) > 4000000:
+            yield cases
+            cases = []
     yield cases
     if ctx.thorough():
-        # length 6 under the generic and the IDS personality
-        pc = personality_cfgs()
+        # length 5 under the core configurations, length 6 under the generic and the IDS personality
+        h5 = [vf.hexs(bytes(t)) for t in itertools.product(ALPHA, repeat=5)]
+        cases = []
+        for c in core:
+            pre = "path\t" + c + "\t"
+            cases += [pre + h for h in h5]
+            if len(cases) > 4000000:
+                yield cases
+                cases = []
+        yield cases
         for d in (pc[0], pc[2]):
             pre = "path\t" + cfg_fields(d) + "\t"
             yield [pre + vf.hexs(bytes(t)) for t in itertools.product(ALPHA, repeat=6)]
     cases = []
-    st = [vf.hexs(s) for s in structured_strings(ctx)]
+    st = [vf.hexs(s) for s in structured_strings(ctx, 2)]
     rc = random_cfgs(ctx, 40 if ctx.thorough() else 12)
     for c in cfgs + rc:
         pre = "path\t" + c + "\t"
@@ -204,8 +219,15 @@ def gen_path(ctx):
         if len(cases) > 4000000:
             yield cases
             cases = []
+    if ctx.thorough():
+        st3 = [vf.hexs(s) for s in structured_strings(ctx, 3) if len(s) <= 12]
+        for c in bases + rc[:4]:
+            pre = "path\t" + c + "\t"
+            cases += [pre + h for h in st3]
+            if len(cases) > 4000000:
+                yield cases
+                cases = []
     ue = [vf.hexs(x) for x in utf8_edge_strings()]
-    pc = personality_cfgs()
     for d in pc + [{**pc[2], "replacement": 0x2f, "utf8_inv": 400, "bestfit": True}, {**pc[0], "bestfit": True, "utf8_inv": 404}]:
         pre = "path\t" + cfg_fields(d) + "\t"
         cases += [pre + h for h in ue]
@@ -318,8 +340,25 @@ def oracle_none(case, out):
     return None
 
 
+def correspond_retry(ctx, name, cases):
+    """vf.correspond; one retry when a driver process was killed by a signal from outside (shared machine)"""
+    try:
+        return vf.correspond(ctx, name, cases)
+    except vf.CheckError as e:
+        if "rc=-" not in str(e):
+            raise
+        ctx.log("driver killed by a signal (%s); retrying the batch once" % str(e)[:120])
+        return vf.correspond(ctx, name, cases)
+
+
 def run_suite(ctx, name, cases, oracle, keys):
-    impl, model, crash = vf.correspond(ctx, name, cases)
+    impl, model, crash = correspond_retry(ctx, name, cases)
+    if crash and crash[1] < 0 and crash[1] != -999:
+        # the implementation driver was killed by a signal from outside (not a sanitizer exit code): run the batch again
+        ctx.log("implementation driver killed by signal %d; retrying the batch once" % -crash[1])
+        ctx.cov["suites"][name]["cases"] -= len(cases)
+        ctx.cov["evaluations"] -= len(cases)
+        impl, model, crash = correspond_retry(ctx, name, cases)
     if crash:
         vf.report_crash(ctx, name, cases, crash)
         return
@@ -379,7 +418,7 @@ def check(ctx):
         if not crash and i != m:
             ctx.known.append("id=%s %s" % (k["id"], k["what"]))
     ctx.cov["exhaustive"] = False
-    L = 5 if ctx.thorough() else 4
+    L = 4
     rule = ("S-path: all strings over {/ . %% u \\ 2 f 0 NUL 0xC0 0x80 A} up to length %d x %d core configurations (every personality's "
             "URL_PATH decoder configuration from the regenerated t_personalities, all-on and all-off corners, each with every switch "
             "flipped individually and every invalid-handling value) and up to length %d x %d more (every unwanted code changed, the "
@@ -391,7 +430,7 @@ def check(ctx):
             "(escape tokeniser, UTF-8 tokeniser) on the strings up to length %d, the token and UTF-8 edge strings and random strings. Each case runs the four functions separately and the pipeline through "
             "htp_normalize_parsed_uri; compared: result bytes, tx->flags masked to HTP_PATH_*, response_status_expected_number. "
             "distinct_nontrivial = distinct (switches, handling, decoder flags, pipeline flags, validate flags) classes + output classes."
-            % (L, ncfg[0], L - 1, ncfg[1], "; all strings of length 6 under the generic and the IDS personality" if ctx.thorough() else "", 3 if ctx.thorough() else 2, 3 if ctx.thorough() else 2, 11 if ctx.thorough() else 9, 4 if ctx.thorough() else 3))
+            % (L, ncfg[0], L if ctx.thorough() else L - 1, ncfg[1], "; all strings of length 5 under the core configurations and of length 6 under the generic and the IDS personality" if ctx.thorough() else "", 3 if ctx.thorough() else 2, 3 if ctx.thorough() else 2, 11 if ctx.thorough() else 9, 4 if ctx.thorough() else 3))
     return vf.standard_epilogue(ctx, pr, "make Props/Properties_C12.vo (coqc 8.16.1) + ./check C12", rule,
                                 ["url_encoding_invalid_handling ranges over the three values of its enum type (other integers cannot be "
                                  "passed through the typed setter; the drivers refuse them)",
